@@ -231,6 +231,33 @@ META["C13"] = {
     "require": {"quick": {"operators_covered": 60, "nested": 10000, "overlapping": 10000}, "thorough": {"operators_covered": 60}},
 }
 
+META["C17"] = {
+    "title": "is_closed() is sound and composites tear down late additions",
+    "rule": "two batteries. (a) composite histories: random histories of length <= 8 quick / <= 13 thorough over append / append-nested-composite / clone / unsubscribe / retain / sample on MultiSubscription and MultiSubscriptionThreads with tracked children: every child appended before unsubscribe() is unsubscribed exactly once, every remaining clone reports closed afterwards, a child appended afterwards has been unsubscribed by the time append returns. (b) random pipelines over the whole catalogue (so that unit, Subscriber, pair, composite, task-handle, ref-count, finalizer and boxed subscriptions all occur), is_closed() of the returned subscription sampled before every explorer step: once it returned true no notification may be delivered through that subscription and it may never return false again. Non-trivial: (a) an append fell after the unsubscribe; (b) is_closed() was sampled both false and true in the run; distinct = hash(case).",
+    "assumptions": COMMON_ASSUME + [
+        "`false` is always acceptable (the property is one-directional)",
+    ],
+    "technique": "runtime monitoring: two-state monitor on is_closed() samples plus post-close delivery monitor on the probe; tracked child subscriptions on the real composite types",
+    "level_text": "Exploration over sampled pipelines/schedules and composite histories.",
+    "level_note": "Trusted: probe, tracked child subscription, explorer.",
+    "design_ref": "DESIGN.md §5 C17",
+    "require": {"quick": {"appends_after_unsubscribe": 3000, "runs_where_is_closed_returned_true": 20000, "subscription_types_covered": 2}, "thorough": {"subscription_types_covered": 2}},
+}
+
+META["C18"] = {
+    "title": "Local and thread-safe variants are observationally equivalent",
+    "rule": "cases = the C01 pipeline generator (whole catalogue, 1-3 hot inputs, stashed create handles, cold and timed sources, depth <= 3 quick / <= 5 thorough) with its timed scripts; every case is built twice - local builder and threads builder (every operator, subject, subscription and scheduler in its _threads / Threads form) - and driven from one thread with the same FIFO executor and the same explorer seed. The final subscriber's trace (notifications and virtual stamps; stamps dropped when the pipeline reads the real clock through an _at form) must be identical. Non-trivial: the pair delivered at least one notification and contains an operator with a hand-duplicated threads part; distinct = hash(pipeline, scripts).",
+    "assumptions": COMMON_ASSUME + [
+        "group_by terminates its groups in HashMap order: inside generated pipelines it is always flattened, which makes that order unobservable",
+        "a panic in both forms at once counts as equivalent here (panics are C05/C10's business)",
+    ],
+    "technique": "runtime monitoring: differential execution of the local and the thread-safe build of the same generated pipeline under the same explorer schedule, trace equality on the recording probe",
+    "level_text": "Exploration over sampled pipelines; pairwise trace equality.",
+    "level_note": "Trusted: the two builder flavours come from one macro; explorer determinism.",
+    "design_ref": "DESIGN.md §5 C18",
+    "require": {"quick": {"dual_form_operators_covered": 15}, "thorough": {"dual_form_operators_covered": 15}},
+}
+
 
 # properties without a check yet are listed here with the reason; the list shrinks as checks land
 ALL_IDS = ['C01', 'C02', 'C03', 'C04', 'C05', 'C06', 'C07', 'C08', 'C09', 'C10', 'C11', 'C12', 'C13', 'C14', 'C15', 'C16', 'C17', 'C18', 'C19', 'C20']
